@@ -294,572 +294,582 @@ def guard_literals(node, stop):
 
 def run(repo, chk):
     # ---------------------------------------------------------------- R-C06-1 Euler step
-    fn = repo.func(HYD, "update_tank_heads")
-    chk.fn(fn)
-    ex = AtomExec(call_hook=interp_hook)          # path conditions as canonical atoms: `is not None`, swapped operands, and/or shapes do not matter
-    outs = ex.run(fn)
-    sy = ex.sym
-    dt_ref = sy("wn.sim_time") - sy("wn._prev_sim_time")
-    dem, prevh, D = sy("tank.demand"), sy("tank._prev_head"), sy("tank.diameter")
-    seen = {"cyl": 0, "curve": 0}
-    for o in outs:
-        st = [e for e in o.events if e[0] == "store" and e[1] == "tank._head"]
-        if len(st) != 1:
-            chk.bad("R-C06-1", "update_tank_heads assigns the new head exactly once per tank", loc(fn), found=[e[1] for e in st])
-            continue
-        ctx = st[0][4][-1] if len(st[0]) > 4 and st[0][4] else ""
-        chk.expect(ctx == "wn.tanks()", "R-C06-1", "update_tank_heads ranges over all tanks", loc(fn), found=ctx)
-        val = ex.S(st[0][2])
-        none = [v for t, v in o.conds if t == eq_atom("tank.vol_curve", "None", "is")]
-        if none and none[0]:
-            seen["cyl"] += 1
-            want = prevh + dem * dt_ref / (sp.pi * D ** 2 / 4)
-            chk.expect(is_zero(val - want), "R-C06-1", "cylindrical tank: new head = last accepted head + demand*dt / (pi*D^2/4)", loc(fn),
-                       "explicit Euler step with the tank's cross-section, net inflow and the elapsed time since the last accepted solve", expected=str(want), found=str(val))
-        elif none and not none[0]:
-            seen["curve"] += 1
-            same = [v for t, v in o.conds if t == eq_atom("tank.head", "tank._prev_head")]
-            interps = [a for a in val.atoms(sp.Function) if a.func.__name__ == "interp"]
-            outer = [a for a in interps if any(isinstance(b, sp.Function) and b.func.__name__ == "interp" for b in a.args[0].atoms(sp.Function))]
-            okc = len(outer) == 1
-            detail = ""
-            if okc:
-                O = outer[0]
-                inner = [b for b in O.args[0].atoms(sp.Function) if b.func.__name__ == "interp"]
-                I = inner[0]
-                L = I.args[0]
-                # axes transposed on the same curve
-                okc = I.args[1] == O.args[2] and I.args[2] == O.args[1] and I.args[1] != I.args[2]
-                detail += "axes %s/%s vs %s/%s; " % (I.args[1], I.args[2], O.args[1], O.args[2])
-                # level axis is column 0, volume axis column 1 of the curve points
-                okc = okc and str(I.args[1]).endswith("[:, 0]") or str(I.args[1]).endswith("[(:, 0)]") or ", 0)" in str(I.args[1]) if okc else False
-                okc = okc and is_zero(O.args[0] - (I + dem * dt_ref))
-                detail += "V1 - (V0 + q*dt) = %s; " % sp.simplify(O.args[0] - (I + dem * dt_ref))
-                okc = okc and is_zero(val - (prevh + O - L))
-                # reference level must be the LAST ACCEPTED level
-                lvl_prev = prevh - (sy("tank.head") - sy("tank.level"))
-                if same and same[0]:
-                    okl = is_zero(L - sy("tank.level")) or is_zero(L - lvl_prev)
-                else:
-                    okl = is_zero(L - lvl_prev)
-                chk.expect(okl, "R-C06-1", "volume-curve tank: the step starts from the last accepted level%s" % (" [head unchanged since]" if same and same[0] else " [head already advanced]"), loc(fn),
-                           "update_tank_heads is called several times per step; once the head has been advanced, tank.level is no longer the accepted level and the volume increment "
-                           "would be measured on the wrong part of the curve", expected=str(lvl_prev), found=str(L))
-            chk.expect(bool(okc), "R-C06-1", "volume-curve tank: V1 = V(level) + demand*dt and new level = V^-1(V1) on the same curve%s" % (" [head unchanged since]" if same and same[0] else " [head already advanced]"),
-                       loc(fn), detail, found=str(val)[:300])
-    chk.expect(seen["cyl"] >= 1 and seen["curve"] >= 1, "R-C06-1", "both tank geometries are handled", loc(fn), found=seen)
-    # dt definition: the value a local `dt` has at the end of every path (when the step is written without such a local, the two formulas above, which
-    # are compared against sim_time - _prev_sim_time, already decide it)
-    dtv = [o.env["dt"] for o in outs if "dt" in o.env]
-    okdt = True
-    for v in dtv:
-        try:
-            okdt = okdt and is_zero(ex.S(v) - dt_ref)
-        except ExtractError:
-            okdt = False
-    chk.expect(okdt, "R-C06-1", "dt is the time since the last accepted solve", loc(fn), expected=str(dt_ref), found=str(dtv[0]) if dtv else "no local dt")
-    gv = repo.func(ELEM, "Tank.get_volume")
-    chk.fn(gv)
-    exv = AtomExec(call_hook=interp_hook)
-    gseen = set()
-    for o in exv.run(gv):
-        if o.raised or o.ret is None:
-            continue
-        none = [v for t, v in o.conds if "vol_curve is None" in t]
-        lvl_none = [v for t, v in o.conds if t == "level is None"]
-        if lvl_none and lvl_none[0]:
-            continue
-        if none and none[0]:
-            r = exv.S(o.ret)
-            want = sp.pi / 4 * exv.sym("self.diameter") ** 2 * exv.sym("level")
-            chk.expect(is_zero(r - want), "R-C06-1", "Tank.get_volume (cylindrical) = pi/4 * D^2 * level", loc(gv), found=str(r))
-            gseen.add("cyl")
-        elif none and not none[0]:
-            r = exv.S(o.ret) if not isinstance(o.ret, Opaque) else None
-            okg = r is not None and len([a for a in r.atoms(sp.Function) if a.func.__name__ == "interp"]) == 1
-            chk.expect(bool(okg), "R-C06-1", "Tank.get_volume (curve) interpolates the volume curve at the level", loc(gv), found=str(o.ret)[:120])
-            gseen.add("curve")
-    chk.expect(gseen == {"cyl", "curve"}, "R-C06-1", "Tank.get_volume handles both geometries", loc(gv), found=sorted(gseen))
-    # Tank.level and the init_level setter, as formulas (a property and its backing field `_x` are the same quantity)
-    def pub(exq, v):
-        e = exq.S(v)
-        return e.subs({y: exq.sym(str(y).replace("self._", "self.")) for y in e.free_symbols if str(y).startswith("self._")})
-    lv = repo.func(ELEM, "Tank.level", kind="getter")
-    exl = SymExec()
-    rets = [o.ret for o in exl.run(lv) if not o.raised]
-    okl = bool(rets)
-    for r in rets:
-        try:
-            okl = okl and r is not None and is_zero(pub(exl, r) - (exl.sym("self.head") - exl.sym("self.elevation")))
-        except ExtractError:
-            okl = False
-    chk.expect(okl, "R-C06-1", "Tank.level = head - elevation", loc(lv), found=[str(r) for r in rets])
-    il = repo.func(ELEM, "Tank.init_level", kind="setter")
-    exi = SymExec()
-    oki, found_i = False, []
-    for o in exi.run(il):
-        if o.raised:
-            continue
-        hs = [e for e in o.events if e[0] == "store" and e[1] == "self._head"]
-        found_i.append([str(e[2]) for e in hs])
-        try:
-            val = pub(exi, hs[-1][2]) if hs else None
-        except ExtractError:
-            val = None
-        newv = [e[2] for e in o.events if e[0] == "store" and e[1] == "self._init_level"]      # the value the setter stores as the new init_level
-        cands = [exi.sym("self.init_level")] + [exi.S(x) for x in newv[-1:] if isinstance(x, (Opaque, sp.Basic, int, float))]
-        oki = val is not None and any(is_zero(val - (exi.sym("self.elevation") + c_)) for c_ in cands)
-        if not oki:
-            break
-    chk.expect(oki, "R-C06-1", "setting init_level sets head = elevation + init_level", loc(il), found=found_i)
-    chk.floor("R-C06-1", 10)
-
-    # ---------------------------------------------------------------- R-C06-2 bookkeeping
-    up = repo.func(HYD, "update_network_previous_values")
-    chk.fn(up)
-    exu = SymExec()
-    ou = exu.run(up)[0]
-    stores = {(e[1], (e[4][-1] if len(e) > 4 and e[4] else "")): e[2] for e in ou.events if e[0] == "store"}
-    chk.expect(stores.get(("wn._prev_sim_time", "")) == Opaque("wn.sim_time"), "R-C06-2", "update_network_previous_values stores the accepted time", loc(up), found=stores.get(("wn._prev_sim_time", "")))
-    chk.expect(stores.get(("tank._prev_head", "wn.tanks()")) == Opaque("tank.head"), "R-C06-2", "update_network_previous_values stores every tank's accepted head", loc(up), found={k: str(v) for k, v in stores.items()})
-    rs = repo.func(CORE, "WNTRSimulator.run_sim")
-    chk.fn(rs)
-    g = CFG(rs)
-    heads = [h for n, h in g.loop_heads.items() if isinstance(n, ast.While)]
-    if len(heads) != 1:
-        raise AnchorError("run_sim: expected one while loop")
-    head = heads[0]
-    inloop = g.reachable(head)
-    upd = g.calling("update_network_previous_values")
-    upd_in = [u for u in upd if u in inloop and head in g.reachable(u)]
-    upd_pre = [u for u in upd if u not in upd_in]
-    saves = g.calling("save_results")
-    adv = g.nodes_where(lambda node, d: isinstance(node, ast.AugAssign) and unparse(node.target) == "self._wn.sim_time" and isinstance(node.op, ast.Add))
-    chk.expect(len(upd_in) == 1, "R-C06-2", "exactly one update_network_previous_values per accepted step", loc(rs), found=[g.label(u) for u in upd_in])
-    if upd_in and adv:
-        u = upd_in[0]
-        w = g.can_reach_avoiding(head, adv, [u], drop_back=True)
-        chk.expect(w is None, "R-C06-2", "the accepted state is stored before sim_time advances", loc(rs), found=g.path_text(w) if w else None)
-        rr = g.reachable(u, g.view(drop_back=True))
-        chk.expect(not any(s in rr for s in saves), "R-C06-2", "the accepted state is stored after the results of the step were saved", loc(rs))
-        gt = [n for n in g.nodes_where(lambda node, d: d["kind"] == "test" and "changes_made" in unparse(node) and "'graph'" in unparse(node))]
-        if gt:
-            w = g.can_reach_avoiding(g.succ_on(gt[0], True)[0], [u], [], drop_back=True) if g.succ_on(gt[0], True) else None
-            chk.expect(w is None, "R-C06-2", "a step that is going to be re-solved is not stored as accepted", loc(rs), found=g.path_text(w) if w else None)
-    okpre = len(upd_pre) == 1 and guard_literals(g.node_ast(upd_pre[0]), rs) == {("first_step", True)}
-    chk.expect(okpre, "R-C06-2", "before the loop the previous values are initialised only on a first step", loc(rs),
-               found=[sorted(guard_literals(g.node_ast(u), rs)) for u in upd_pre])
-    uth = g.calling("update_tank_heads")
-    comp = g.calling("_compute_next_timestep_and_run_presolve_controls_and_rules")
-    shp = g.calling("source_head_param")
-    if not (uth and comp and shp):
-        raise AnchorError("run_sim: update_tank_heads / scheduler / source_head_param calls missing")
-    between = [n for n in uth if n in g.reachable(comp[0], g.view(drop_back=True)) and shp[0] in g.reachable(n, g.view(drop_back=True))]
-    # the guards are read as sets of literals from all enclosing ifs: nesting, operand order, `x == False` / `not x` do not matter
-    wloop = [n for n in g.loop_heads if isinstance(n, ast.While)][0]
-    okb = any(guard_literals(g.node_ast(n), wloop) == {("first_step", False), ("resolve", False)} for n in between)
-    chk.expect(okb, "R-C06-2", "every non-first, non-resolve iteration recomputes tank heads after the step's final time is known and before the source heads are refreshed", loc(rs),
-               expected="a call guarded by exactly (not first_step) and (not resolve)", found=[(g.label(n), sorted(guard_literals(g.node_ast(n), wloop))) for n in between])
-    early = [n for n in uth if comp[0] in g.reachable(n, g.view(drop_back=True))]
-    for n in early:
-        lits = guard_literals(g.node_ast(n), wloop)
-        chk.expect(("first_step", False) in lits and not any(t == "first_step" and v for t, v in lits), "R-C06-2", "tank heads are projected before the controls are checked, except on a first step", loc(rs, g.node_ast(n)), found=sorted(lits))
-    shn = repo.func("wntr/sim/models/param.py", "source_head_param")
-    # decided on the store events of the symbolic paths (not on the text): on the refresh path, inside a loop over wn.tanks() binding (key, tank), the model
-    # parameter under that key receives that tank's head
-    from ..symx import SymExec as _SX
-    ok_copy = False
-    for hv in (True, False):
-        exs = _SX(test_hook=lambda txt, node, st, hv=hv: (hv if txt.startswith("hasattr(") else None))
-        for o in exs.run(shn):
-            for e in o.events:
-                if e[0] != "store" or not e[4]:
-                    continue
-                val = exs.text(e[2])
-                m_ = re.match(r"^m\.source_head\[(\w+)\]\.value$", e[1])
-                if not m_:
-                    continue
-                key = m_.group(1)
-                # the loops this store is nested in: (target text, iterable text) recorded with the loop events of the path
-                for le in o.events:
-                    if le[0] == "loop" and "tanks()" in le[2]:
-                        names = [x.strip() for x in le[1].strip("()").split(",")]
-                        if len(names) == 2 and names[0] == key and val == names[1] + ".head":
-                            ok_copy = True
-    chk.expect(ok_copy, "R-C06-2", "source_head_param copies every tank's head into the model", loc(shn),
-               "on the refresh path the parameter m.source_head[<tank name>] must receive <tank>.head for every tank of wn.tanks(): the integrated level reaches the solver only through it")
-    chk.floor("R-C06-2", 8)
-
-    # ---------------------------------------------------------------- R-C06-3 limit controls
-    tc = repo.func(CORE, "WNTRSimulator._get_all_tank_controls")
-    chk.fn(tc)
-    outer = [n for n in tc.body if isinstance(n, ast.For)]
-    if len(outer) != 1:
-        raise AnchorError("_get_all_tank_controls: expected one loop over tanks")
-    chk.expect("Tank" in unparse(outer[0].iter), "R-C06-3", "limit controls are built for every tank", loc(tc), found=unparse(outer[0].iter))
-    inner = [n for n in outer[0].body if isinstance(n, ast.For)]
-    if len(inner) != 2:
-        raise AnchorError("_get_all_tank_controls: expected a min-level loop and a max-level loop, found %d" % len(inner))
-    # constructor calls are read through the real __init__ signatures (positional or keyword arguments alike): role name -> value
-    sigs, defaults = {}, {}
-    for cname in ("ValueCondition", "RelativeCondition", "_InternalControlAction", "Control"):
-        ini = repo.func(CTRL, cname + ".__init__")
-        a_ = ini.args
-        if a_.vararg or a_.kwarg:
-            raise ExtractError("%s.__init__ takes star arguments" % cname)
-        sigs[cname] = [x.arg for x in a_.args[1:]] + [x.arg for x in a_.kwonlyargs]
-        for x, d_ in list(zip(a_.args[len(a_.args) - len(a_.defaults):], a_.defaults)) + [(x, d_) for x, d_ in zip(a_.kwonlyargs, a_.kw_defaults) if d_ is not None]:
-            defaults[(cname, x.arg)] = d_.value if isinstance(d_, ast.Constant) else Opaque(unparse(d_))
-    ROLES = {"ValueCondition": ("source_obj", "source_attr", "relation", "threshold"),
-             "RelativeCondition": ("source_obj", "source_attr", "relation", "threshold_obj", "threshold_attr"),
-             "_InternalControlAction": ("target_obj", "internal_attribute", "value", "property_attribute"),
-             "Control": ("condition", "then_action", "priority")}
-    for cname, roles in ROLES.items():
-        if not set(roles) <= set(sigs[cname]):
-            raise AnchorError("%s.__init__ no longer has the parameters %s" % (cname, sorted(set(roles) - set(sigs[cname]))))
-
-    def bound(ev_):
-        cname = ev_[1].split("(", 1)[0]
-        _, args_, kw_ = ev_[2]
-        if len(args_) > len(sigs[cname]) or set(kw_) - set(sigs[cname]):
-            raise ExtractError("cannot bind the arguments of %s" % ev_[1][:120])
-        b_ = {k_: v_ for (c_, k_), v_ in defaults.items() if c_ == cname}
-        b_.update(zip(sigs[cname], args_))
-        b_.update(kw_)
-        return b_
-
-    def txt_(v):
-        return v.text if isinstance(v, Opaque) else v
-    for li, (lp, lim) in enumerate(zip(inner, ("min", "max"))):
-        pre = [s for s in outer[0].body if s.lineno < lp.lineno and isinstance(s, ast.Assign)]
-        ex3 = AtomExec()
-        st0 = State({"self": Opaque("self"), "tank": Opaque("tank"), "tank_name": Opaque("tank_name"), "tank_controls": []})
-        for s in pre:
-            ex3.stmt(s, st0)
-        headname = "%s_head" % lim
-        hv = st0.env.get(headname)
-        want_h = ex3.sym("tank.%s_level" % lim) + ex3.sym("tank.elevation")
-        chk.expect(hv is not None and is_zero(ex3.S(hv) - want_h), "R-C06-3", "%s limit threshold is %s_level + elevation (a head)" % (lim, lim), loc(tc), found=str(hv))
-        itv = ex3.ev(lp.iter, st0)              # the iterable, with locals resolved; flag 'ALL' is get_links_for_node's default
-        chk.expect(isinstance(itv, Opaque) and re.fullmatch(r"self\._wn\.get_links_for_node\(tank_name(, (flag=)?'ALL')?\)", itv.text) is not None, "R-C06-3", "%s limit: all links at the tank are considered" % lim, loc(tc, lp), found=str(itv))
-        ex3.bind_loop_target(lp.target, st0)
-        paths = ex3.block(lp.body, [st0])
-        Htol = ex3.sym("self._Htol")
-        closing = "Comparison.le" if lim == "min" else "Comparison.ge"
-        opening = "Comparison.ge" if lim == "min" else "Comparison.le"
-        skip_end = "end_node_name" if lim == "min" else "start_node_name"    # the link end that must be the tank for the skip
-        ncase = 0
-        for o in paths:
+    with chk.part("R-C06-1 Euler step"):
+        fn = repo.func(HYD, "update_tank_heads")
+        chk.fn(fn)
+        ex = AtomExec(call_hook=interp_hook)          # path conditions as canonical atoms: `is not None`, swapped operands, and/or shapes do not matter
+        outs = ex.run(fn)
+        sy = ex.sym
+        dt_ref = sy("wn.sim_time") - sy("wn._prev_sim_time")
+        dem, prevh, D = sy("tank.demand"), sy("tank._prev_head"), sy("tank.diameter")
+        seen = {"cyl": 0, "curve": 0}
+        for o in outs:
+            st = [e for e in o.events if e[0] == "store" and e[1] == "tank._head"]
+            if len(st) != 1:
+                chk.bad("R-C06-1", "update_tank_heads assigns the new head exactly once per tank", loc(fn), found=[e[1] for e in st])
+                continue
+            ctx = st[0][4][-1] if len(st[0]) > 4 and st[0][4] else ""
+            chk.expect(ctx == "wn.tanks()", "R-C06-1", "update_tank_heads ranges over all tanks", loc(fn), found=ctx)
+            val = ex.S(st[0][2])
+            none = [v for t, v in o.conds if t == eq_atom("tank.vol_curve", "None", "is")]
+            if none and none[0]:
+                seen["cyl"] += 1
+                want = prevh + dem * dt_ref / (sp.pi * D ** 2 / 4)
+                chk.expect(is_zero(val - want), "R-C06-1", "cylindrical tank: new head = last accepted head + demand*dt / (pi*D^2/4)", loc(fn),
+                           "explicit Euler step with the tank's cross-section, net inflow and the elapsed time since the last accepted solve", expected=str(want), found=str(val))
+            elif none and not none[0]:
+                seen["curve"] += 1
+                same = [v for t, v in o.conds if t == eq_atom("tank.head", "tank._prev_head")]
+                interps = [a for a in val.atoms(sp.Function) if a.func.__name__ == "interp"]
+                outer = [a for a in interps if any(isinstance(b, sp.Function) and b.func.__name__ == "interp" for b in a.args[0].atoms(sp.Function))]
+                okc = len(outer) == 1
+                detail = ""
+                if okc:
+                    O = outer[0]
+                    inner = [b for b in O.args[0].atoms(sp.Function) if b.func.__name__ == "interp"]
+                    I = inner[0]
+                    L = I.args[0]
+                    # axes transposed on the same curve
+                    okc = I.args[1] == O.args[2] and I.args[2] == O.args[1] and I.args[1] != I.args[2]
+                    detail += "axes %s/%s vs %s/%s; " % (I.args[1], I.args[2], O.args[1], O.args[2])
+                    # level axis is column 0, volume axis column 1 of the curve points
+                    okc = okc and str(I.args[1]).endswith("[:, 0]") or str(I.args[1]).endswith("[(:, 0)]") or ", 0)" in str(I.args[1]) if okc else False
+                    okc = okc and is_zero(O.args[0] - (I + dem * dt_ref))
+                    detail += "V1 - (V0 + q*dt) = %s; " % sp.simplify(O.args[0] - (I + dem * dt_ref))
+                    okc = okc and is_zero(val - (prevh + O - L))
+                    # reference level must be the LAST ACCEPTED level
+                    lvl_prev = prevh - (sy("tank.head") - sy("tank.level"))
+                    if same and same[0]:
+                        okl = is_zero(L - sy("tank.level")) or is_zero(L - lvl_prev)
+                    else:
+                        okl = is_zero(L - lvl_prev)
+                    chk.expect(okl, "R-C06-1", "volume-curve tank: the step starts from the last accepted level%s" % (" [head unchanged since]" if same and same[0] else " [head already advanced]"), loc(fn),
+                               "update_tank_heads is called several times per step; once the head has been advanced, tank.level is no longer the accepted level and the volume increment "
+                               "would be measured on the wrong part of the curve", expected=str(lvl_prev), found=str(L))
+                chk.expect(bool(okc), "R-C06-1", "volume-curve tank: V1 = V(level) + demand*dt and new level = V^-1(V1) on the same curve%s" % (" [head unchanged since]" if same and same[0] else " [head already advanced]"),
+                           loc(fn), detail, found=str(val)[:300])
+        chk.expect(seen["cyl"] >= 1 and seen["curve"] >= 1, "R-C06-1", "both tank geometries are handled", loc(fn), found=seen)
+        # dt definition: the value a local `dt` has at the end of every path (when the step is written without such a local, the two formulas above, which
+        # are compared against sim_time - _prev_sim_time, already decide it)
+        dtv = [o.env["dt"] for o in outs if "dt" in o.env]
+        okdt = True
+        for v in dtv:
+            try:
+                okdt = okdt and is_zero(ex.S(v) - dt_ref)
+            except ExtractError:
+                okdt = False
+        chk.expect(okdt, "R-C06-1", "dt is the time since the last accepted solve", loc(fn), expected=str(dt_ref), found=str(dtv[0]) if dtv else "no local dt")
+        gv = repo.func(ELEM, "Tank.get_volume")
+        chk.fn(gv)
+        exv = AtomExec(call_hook=interp_hook)
+        gseen = set()
+        for o in exv.run(gv):
+            if o.raised or o.ret is None:
+                continue
+            none = [v for t, v in o.conds if "vol_curve is None" in t]
+            lvl_none = [v for t, v in o.conds if t == "level is None"]
+            if lvl_none and lvl_none[0]:
+                continue
+            if none and none[0]:
+                r = exv.S(o.ret)
+                want = sp.pi / 4 * exv.sym("self.diameter") ** 2 * exv.sym("level")
+                chk.expect(is_zero(r - want), "R-C06-1", "Tank.get_volume (cylindrical) = pi/4 * D^2 * level", loc(gv), found=str(r))
+                gseen.add("cyl")
+            elif none and not none[0]:
+                r = exv.S(o.ret) if not isinstance(o.ret, Opaque) else None
+                okg = r is not None and len([a for a in r.atoms(sp.Function) if a.func.__name__ == "interp"]) == 1
+                chk.expect(bool(okg), "R-C06-1", "Tank.get_volume (curve) interpolates the volume curve at the level", loc(gv), found=str(o.ret)[:120])
+                gseen.add("curve")
+        chk.expect(gseen == {"cyl", "curve"}, "R-C06-1", "Tank.get_volume handles both geometries", loc(gv), found=sorted(gseen))
+        # Tank.level and the init_level setter, as formulas (a property and its backing field `_x` are the same quantity)
+        def pub(exq, v):
+            e = exq.S(v)
+            return e.subs({y: exq.sym(str(y).replace("self._", "self.")) for y in e.free_symbols if str(y).startswith("self._")})
+        lv = repo.func(ELEM, "Tank.level", kind="getter")
+        exl = SymExec()
+        rets = [o.ret for o in exl.run(lv) if not o.raised]
+        okl = bool(rets)
+        for r in rets:
+            try:
+                okl = okl and r is not None and is_zero(pub(exl, r) - (exl.sym("self.head") - exl.sym("self.elevation")))
+            except ExtractError:
+                okl = False
+        chk.expect(okl, "R-C06-1", "Tank.level = head - elevation", loc(lv), found=[str(r) for r in rets])
+        il = repo.func(ELEM, "Tank.init_level", kind="setter")
+        exi = SymExec()
+        oki, found_i = False, []
+        for o in exi.run(il):
             if o.raised:
                 continue
-            c = dict(o.conds)                 # atoms (AtomExec): the same facts whatever and/or/not/helper shape the tests have
-            ispipe = c.get("isinstance(self._wn.get_link(link_name), Pipe)")
-            ispump = c.get("isinstance(self._wn.get_link(link_name), Pump)")
-            cv = c.get("self._wn.get_link(link_name).check_valve")
-            at_skip_end = [v for t, v in o.conds if t == eq_atom("self._wn.get_link(link_name).%s" % skip_end, "tank_name")]
-            kind = "pipe+cv" if (ispipe and cv) else ("pipe" if ispipe else ("pump" if ispump else "valve/other"))
-            if ispipe and ispump:
-                continue                      # infeasible combination of the two isinstance tests
-            skipped = any(e[0] == "continue" for e in o.events)
-            want_skip = kind in ("pipe+cv", "pump") and bool(at_skip_end and at_skip_end[0])
-            case = "%s limit, %s%s" % (lim, kind, (", tank is its %s" % ("end" if (at_skip_end and at_skip_end[0]) == (lim == "min") else "start")) if kind in ("pipe+cv", "pump") else "")
-            ncase += 1
-            chk.expect(skipped == want_skip, "R-C06-3", "%s: %s" % (case, "no control (the link cannot carry water %s the tank)" % ("out of" if lim == "min" else "into") if want_skip else "gets a closing control"), loc(tc, lp),
-                       "at the %s limit exactly the links that can %s the tank must be closed" % (lim, "drain" if lim == "min" else "fill"), expected="skip=%s" % want_skip, found="skip=%s [%s]" % (skipped, o.label()[-120:]))
-            if skipped:
-                continue
-            vcs = [e for e in o.events if e[0] == "call" and e[1].startswith("ValueCondition(")]
-            rcs = [e for e in o.events if e[0] == "call" and e[1].startswith("RelativeCondition(")]
-            ctl = [e for e in o.events if e[0] == "call" and e[1].startswith("Control(")]
-            acts = [e for e in o.events if e[0] == "call" and e[1].startswith("_InternalControlAction(")]
-            types = [(e[1], e[2].text if isinstance(e[2], Opaque) else e[2]) for e in o.events if e[0] == "store" and e[1].endswith("._control_type")]
-            has_cv = kind in ("pipe+cv", "pump")
-            nctl = 1 if has_cv else 3
-            chk.expect(len(ctl) == nctl and len(o.env["tank_controls"]) == nctl, "R-C06-3", "%s: %d control(s) created and collected" % (case, nctl), loc(tc, lp), found=(len(ctl), len(o.env["tank_controls"])))
-            ab = [bound(a) for a in acts]
-            a_ok = len(ab) == 2 and all(x.get("internal_attribute") == "_internal_status" and x.get("property_attribute") == "status" and x.get("target_obj") == Opaque("self._wn.get_link(link_name)") for x in ab) \
-                and ab[0].get("value") == Opaque("LinkStatus.Closed") and ab[1].get("value") == Opaque("LinkStatus.Open")
-            chk.expect(a_ok, "R-C06-3", "%s: actions set the link's internal status (Closed / Open) and report `status`" % case, loc(tc, lp), found=[a[1] for a in acts])
-            if vcs:
-                def vc_ok(ev_, rel, thr):
-                    b_ = bound(ev_)
-                    try:
-                        return b_.get("source_obj") == Opaque("tank") and b_.get("source_attr") == "head" and txt_(b_.get("relation")) == rel and "threshold" in b_ and is_zero(ex3.S(b_["threshold"]) - thr)
-                    except ExtractError:
-                        return False
-                okc = vc_ok(vcs[0], closing, want_h)
-                chk.expect(okc, "R-C06-3", "%s: closing condition is tank head %s %s_level + elevation" % (case, "<=" if lim == "min" else ">=", lim), loc(tc, lp), found=vcs[0][1])
-                k0 = bound(ctl[0])
-                chk.expect(isinstance(k0.get("priority"), Opaque) and k0["priority"].text == "ControlPriority.medium" and k0.get("then_action") is not None and
-                           isinstance(k0["then_action"], Opaque) and "LinkStatus.Closed" in k0["then_action"].text, "R-C06-3", "%s: closing control has medium priority and the closing action" % case, loc(tc, lp), found=ctl[0][1][:160])
-                chk.expect(bool(types) and types[0][1] == "_ControlType.pre_and_postsolve", "R-C06-3", "%s: closing control is pre- and post-solve (back-tracked to the limit)" % case, loc(tc, lp), found=types[:1])
-            if not has_cv and len(vcs) == 3 and len(rcs) == 1 and len(ctl) == 3:
-                sgn = 1 if lim == "min" else -1
-                ok1 = vc_ok(vcs[1], opening, want_h + sgn * Htol)
-                chk.expect(ok1, "R-C06-3", "%s: re-opening condition 1 is tank head %s limit %s Htol" % (case, ">=" if lim == "min" else "<=", "+" if lim == "min" else "-"), loc(tc, lp), found=vcs[1][1])
-                k1 = bound(ctl[1])
-                chk.expect(txt_(k1.get("priority")) == "ControlPriority.low" and "LinkStatus.Open" in str(txt_(k1.get("then_action"))) and types[1][1] == "_ControlType.postsolve", "R-C06-3",
-                           "%s: re-opening control 1 is low priority, post-solve, opening" % case, loc(tc, lp), found=ctl[1][1][:120])
-                r2 = bound(rcs[0])
-                other = r2.get("threshold_obj")
-                ok2 = r2.get("source_obj") == Opaque("tank") and r2.get("source_attr") == "head" and txt_(r2.get("relation")) == closing and r2.get("threshold_attr") == "head" and vc_ok(vcs[2], closing, want_h + sgn * Htol)
-                other_ok = isinstance(other, Opaque) and other.text in ("self._wn.get_link(link_name).end_node", "self._wn.get_link(link_name).start_node")
-                chk.expect(ok2 and other_ok, "R-C06-3", "%s: re-opening condition 2 is (tank head %s other node's head) and (tank head %s limit %s Htol)" % (case, "<=" if lim == "min" else ">=", "<=" if lim == "min" else ">=", "+" if lim == "min" else "-"),
-                           loc(tc, lp), found=(rcs[0][1], vcs[2][1]))
-                k2 = bound(ctl[2])
-                chk.expect(txt_(k2.get("priority")) == "ControlPriority.high" and "LinkStatus.Open" in str(txt_(k2.get("then_action"))) and "AndCondition" in str(txt_(k2.get("condition"))) and types[2][1] == "_ControlType.postsolve", "R-C06-3",
-                           "%s: re-opening control 2 is high priority, post-solve, opening, conjunction of both conditions" % case, loc(tc, lp), found=ctl[2][1][:160])
-                # the `other node` is the end opposite to the tank
-                st_is = [v for t, v in o.conds if t in (eq_atom("self._wn.get_link(link_name).start_node", "tank", "is"), eq_atom("self._wn.get_link(link_name).start_node", "tank"))]
-                if st_is:
-                    wanto = "self._wn.get_link(link_name).end_node" if st_is[0] else "self._wn.get_link(link_name).start_node"
-                    chk.expect(txt_(other) == wanto, "R-C06-3", "%s: the comparison node is the link's other end [tank is start=%s]" % (case, st_is[0]), loc(tc, lp), found=txt_(other))
-            elif not has_cv:
-                chk.bad("R-C06-3", "%s: two re-opening controls are created for links without a check valve" % case, loc(tc, lp), found=(len(vcs), len(rcs), len(ctl)))
-        chk.expect(ncase >= 6, "R-C06-3", "%s limit: all link kinds/orientations enumerated" % lim, loc(tc, lp), found=ncase)
-    chk.floor("R-C06-3", 50)
+            hs = [e for e in o.events if e[0] == "store" and e[1] == "self._head"]
+            found_i.append([str(e[2]) for e in hs])
+            try:
+                val = pub(exi, hs[-1][2]) if hs else None
+            except ExtractError:
+                val = None
+            newv = [e[2] for e in o.events if e[0] == "store" and e[1] == "self._init_level"]      # the value the setter stores as the new init_level
+            cands = [exi.sym("self.init_level")] + [exi.S(x) for x in newv[-1:] if isinstance(x, (Opaque, sp.Basic, int, float))]
+            oki = val is not None and any(is_zero(val - (exi.sym("self.elevation") + c_)) for c_ in cands)
+            if not oki:
+                break
+        chk.expect(oki, "R-C06-1", "setting init_level sets head = elevation + init_level", loc(il), found=found_i)
+        chk.floor("R-C06-1", 10)
+
+    # ---------------------------------------------------------------- R-C06-2 bookkeeping
+    with chk.part("R-C06-2 bookkeeping"):
+        up = repo.func(HYD, "update_network_previous_values")
+        chk.fn(up)
+        exu = SymExec()
+        ou = exu.run(up)[0]
+        stores = {(e[1], (e[4][-1] if len(e) > 4 and e[4] else "")): e[2] for e in ou.events if e[0] == "store"}
+        chk.expect(stores.get(("wn._prev_sim_time", "")) == Opaque("wn.sim_time"), "R-C06-2", "update_network_previous_values stores the accepted time", loc(up), found=stores.get(("wn._prev_sim_time", "")))
+        chk.expect(stores.get(("tank._prev_head", "wn.tanks()")) == Opaque("tank.head"), "R-C06-2", "update_network_previous_values stores every tank's accepted head", loc(up), found={k: str(v) for k, v in stores.items()})
+        rs = repo.func(CORE, "WNTRSimulator.run_sim")
+        chk.fn(rs)
+        g = CFG(rs)
+        heads = [h for n, h in g.loop_heads.items() if isinstance(n, ast.While)]
+        if len(heads) != 1:
+            raise AnchorError("run_sim: expected one while loop")
+        head = heads[0]
+        inloop = g.reachable(head)
+        upd = g.calling("update_network_previous_values")
+        upd_in = [u for u in upd if u in inloop and head in g.reachable(u)]
+        upd_pre = [u for u in upd if u not in upd_in]
+        saves = g.calling("save_results")
+        adv = g.nodes_where(lambda node, d: isinstance(node, ast.AugAssign) and unparse(node.target) == "self._wn.sim_time" and isinstance(node.op, ast.Add))
+        chk.expect(len(upd_in) == 1, "R-C06-2", "exactly one update_network_previous_values per accepted step", loc(rs), found=[g.label(u) for u in upd_in])
+        if upd_in and adv:
+            u = upd_in[0]
+            w = g.can_reach_avoiding(head, adv, [u], drop_back=True)
+            chk.expect(w is None, "R-C06-2", "the accepted state is stored before sim_time advances", loc(rs), found=g.path_text(w) if w else None)
+            rr = g.reachable(u, g.view(drop_back=True))
+            chk.expect(not any(s in rr for s in saves), "R-C06-2", "the accepted state is stored after the results of the step were saved", loc(rs))
+            gt = [n for n in g.nodes_where(lambda node, d: d["kind"] == "test" and "changes_made" in unparse(node) and "'graph'" in unparse(node))]
+            if gt:
+                w = g.can_reach_avoiding(g.succ_on(gt[0], True)[0], [u], [], drop_back=True) if g.succ_on(gt[0], True) else None
+                chk.expect(w is None, "R-C06-2", "a step that is going to be re-solved is not stored as accepted", loc(rs), found=g.path_text(w) if w else None)
+        okpre = len(upd_pre) == 1 and guard_literals(g.node_ast(upd_pre[0]), rs) == {("first_step", True)}
+        chk.expect(okpre, "R-C06-2", "before the loop the previous values are initialised only on a first step", loc(rs),
+                   found=[sorted(guard_literals(g.node_ast(u), rs)) for u in upd_pre])
+        uth = g.calling("update_tank_heads")
+        comp = g.calling("_compute_next_timestep_and_run_presolve_controls_and_rules")
+        shp = g.calling("source_head_param")
+        if not (uth and comp and shp):
+            raise AnchorError("run_sim: update_tank_heads / scheduler / source_head_param calls missing")
+        between = [n for n in uth if n in g.reachable(comp[0], g.view(drop_back=True)) and shp[0] in g.reachable(n, g.view(drop_back=True))]
+        # the guards are read as sets of literals from all enclosing ifs: nesting, operand order, `x == False` / `not x` do not matter
+        wloop = [n for n in g.loop_heads if isinstance(n, ast.While)][0]
+        okb = any(guard_literals(g.node_ast(n), wloop) == {("first_step", False), ("resolve", False)} for n in between)
+        chk.expect(okb, "R-C06-2", "every non-first, non-resolve iteration recomputes tank heads after the step's final time is known and before the source heads are refreshed", loc(rs),
+                   expected="a call guarded by exactly (not first_step) and (not resolve)", found=[(g.label(n), sorted(guard_literals(g.node_ast(n), wloop))) for n in between])
+        early = [n for n in uth if comp[0] in g.reachable(n, g.view(drop_back=True))]
+        for n in early:
+            lits = guard_literals(g.node_ast(n), wloop)
+            chk.expect(("first_step", False) in lits and not any(t == "first_step" and v for t, v in lits), "R-C06-2", "tank heads are projected before the controls are checked, except on a first step", loc(rs, g.node_ast(n)), found=sorted(lits))
+        shn = repo.func("wntr/sim/models/param.py", "source_head_param")
+        # decided on the store events of the symbolic paths (not on the text): on the refresh path, inside a loop over wn.tanks() binding (key, tank), the model
+        # parameter under that key receives that tank's head
+        from ..symx import SymExec as _SX
+        ok_copy = False
+        for hv in (True, False):
+            exs = _SX(test_hook=lambda txt, node, st, hv=hv: (hv if txt.startswith("hasattr(") else None))
+            for o in exs.run(shn):
+                for e in o.events:
+                    if e[0] != "store" or not e[4]:
+                        continue
+                    val = exs.text(e[2])
+                    m_ = re.match(r"^m\.source_head\[(\w+)\]\.value$", e[1])
+                    if not m_:
+                        continue
+                    key = m_.group(1)
+                    # the loops this store is nested in: (target text, iterable text) recorded with the loop events of the path
+                    for le in o.events:
+                        if le[0] == "loop" and "tanks()" in le[2]:
+                            names = [x.strip() for x in le[1].strip("()").split(",")]
+                            if len(names) == 2 and names[0] == key and val == names[1] + ".head":
+                                ok_copy = True
+        chk.expect(ok_copy, "R-C06-2", "source_head_param copies every tank's head into the model", loc(shn),
+                   "on the refresh path the parameter m.source_head[<tank name>] must receive <tank>.head for every tank of wn.tanks(): the integrated level reaches the solver only through it")
+        chk.floor("R-C06-2", 8)
+
+    # ---------------------------------------------------------------- R-C06-3 limit controls
+    with chk.part("R-C06-3 limit controls"):
+        tc = repo.func(CORE, "WNTRSimulator._get_all_tank_controls")
+        chk.fn(tc)
+        outer = [n for n in tc.body if isinstance(n, ast.For)]
+        if len(outer) != 1:
+            raise AnchorError("_get_all_tank_controls: expected one loop over tanks")
+        chk.expect("Tank" in unparse(outer[0].iter), "R-C06-3", "limit controls are built for every tank", loc(tc), found=unparse(outer[0].iter))
+        inner = [n for n in outer[0].body if isinstance(n, ast.For)]
+        if len(inner) != 2:
+            raise AnchorError("_get_all_tank_controls: expected a min-level loop and a max-level loop, found %d" % len(inner))
+        # constructor calls are read through the real __init__ signatures (positional or keyword arguments alike): role name -> value
+        sigs, defaults = {}, {}
+        for cname in ("ValueCondition", "RelativeCondition", "_InternalControlAction", "Control"):
+            ini = repo.func(CTRL, cname + ".__init__")
+            a_ = ini.args
+            if a_.vararg or a_.kwarg:
+                raise ExtractError("%s.__init__ takes star arguments" % cname)
+            sigs[cname] = [x.arg for x in a_.args[1:]] + [x.arg for x in a_.kwonlyargs]
+            for x, d_ in list(zip(a_.args[len(a_.args) - len(a_.defaults):], a_.defaults)) + [(x, d_) for x, d_ in zip(a_.kwonlyargs, a_.kw_defaults) if d_ is not None]:
+                defaults[(cname, x.arg)] = d_.value if isinstance(d_, ast.Constant) else Opaque(unparse(d_))
+        ROLES = {"ValueCondition": ("source_obj", "source_attr", "relation", "threshold"),
+                 "RelativeCondition": ("source_obj", "source_attr", "relation", "threshold_obj", "threshold_attr"),
+                 "_InternalControlAction": ("target_obj", "internal_attribute", "value", "property_attribute"),
+                 "Control": ("condition", "then_action", "priority")}
+        for cname, roles in ROLES.items():
+            if not set(roles) <= set(sigs[cname]):
+                raise AnchorError("%s.__init__ no longer has the parameters %s" % (cname, sorted(set(roles) - set(sigs[cname]))))
+
+        def bound(ev_):
+            cname = ev_[1].split("(", 1)[0]
+            _, args_, kw_ = ev_[2]
+            if len(args_) > len(sigs[cname]) or set(kw_) - set(sigs[cname]):
+                raise ExtractError("cannot bind the arguments of %s" % ev_[1][:120])
+            b_ = {k_: v_ for (c_, k_), v_ in defaults.items() if c_ == cname}
+            b_.update(zip(sigs[cname], args_))
+            b_.update(kw_)
+            return b_
+
+        def txt_(v):
+            return v.text if isinstance(v, Opaque) else v
+        for li, (lp, lim) in enumerate(zip(inner, ("min", "max"))):
+            pre = [s for s in outer[0].body if s.lineno < lp.lineno and isinstance(s, ast.Assign)]
+            ex3 = AtomExec()
+            st0 = State({"self": Opaque("self"), "tank": Opaque("tank"), "tank_name": Opaque("tank_name"), "tank_controls": []})
+            for s in pre:
+                ex3.stmt(s, st0)
+            headname = "%s_head" % lim
+            hv = st0.env.get(headname)
+            want_h = ex3.sym("tank.%s_level" % lim) + ex3.sym("tank.elevation")
+            chk.expect(hv is not None and is_zero(ex3.S(hv) - want_h), "R-C06-3", "%s limit threshold is %s_level + elevation (a head)" % (lim, lim), loc(tc), found=str(hv))
+            itv = ex3.ev(lp.iter, st0)              # the iterable, with locals resolved; flag 'ALL' is get_links_for_node's default
+            chk.expect(isinstance(itv, Opaque) and re.fullmatch(r"self\._wn\.get_links_for_node\(tank_name(, (flag=)?'ALL')?\)", itv.text) is not None, "R-C06-3", "%s limit: all links at the tank are considered" % lim, loc(tc, lp), found=str(itv))
+            ex3.bind_loop_target(lp.target, st0)
+            paths = ex3.block(lp.body, [st0])
+            Htol = ex3.sym("self._Htol")
+            closing = "Comparison.le" if lim == "min" else "Comparison.ge"
+            opening = "Comparison.ge" if lim == "min" else "Comparison.le"
+            skip_end = "end_node_name" if lim == "min" else "start_node_name"    # the link end that must be the tank for the skip
+            ncase = 0
+            for o in paths:
+                if o.raised:
+                    continue
+                c = dict(o.conds)                 # atoms (AtomExec): the same facts whatever and/or/not/helper shape the tests have
+                ispipe = c.get("isinstance(self._wn.get_link(link_name), Pipe)")
+                ispump = c.get("isinstance(self._wn.get_link(link_name), Pump)")
+                cv = c.get("self._wn.get_link(link_name).check_valve")
+                at_skip_end = [v for t, v in o.conds if t == eq_atom("self._wn.get_link(link_name).%s" % skip_end, "tank_name")]
+                kind = "pipe+cv" if (ispipe and cv) else ("pipe" if ispipe else ("pump" if ispump else "valve/other"))
+                if ispipe and ispump:
+                    continue                      # infeasible combination of the two isinstance tests
+                skipped = any(e[0] == "continue" for e in o.events)
+                want_skip = kind in ("pipe+cv", "pump") and bool(at_skip_end and at_skip_end[0])
+                case = "%s limit, %s%s" % (lim, kind, (", tank is its %s" % ("end" if (at_skip_end and at_skip_end[0]) == (lim == "min") else "start")) if kind in ("pipe+cv", "pump") else "")
+                ncase += 1
+                chk.expect(skipped == want_skip, "R-C06-3", "%s: %s" % (case, "no control (the link cannot carry water %s the tank)" % ("out of" if lim == "min" else "into") if want_skip else "gets a closing control"), loc(tc, lp),
+                           "at the %s limit exactly the links that can %s the tank must be closed" % (lim, "drain" if lim == "min" else "fill"), expected="skip=%s" % want_skip, found="skip=%s [%s]" % (skipped, o.label()[-120:]))
+                if skipped:
+                    continue
+                vcs = [e for e in o.events if e[0] == "call" and e[1].startswith("ValueCondition(")]
+                rcs = [e for e in o.events if e[0] == "call" and e[1].startswith("RelativeCondition(")]
+                ctl = [e for e in o.events if e[0] == "call" and e[1].startswith("Control(")]
+                acts = [e for e in o.events if e[0] == "call" and e[1].startswith("_InternalControlAction(")]
+                types = [(e[1], e[2].text if isinstance(e[2], Opaque) else e[2]) for e in o.events if e[0] == "store" and e[1].endswith("._control_type")]
+                has_cv = kind in ("pipe+cv", "pump")
+                nctl = 1 if has_cv else 3
+                chk.expect(len(ctl) == nctl and len(o.env["tank_controls"]) == nctl, "R-C06-3", "%s: %d control(s) created and collected" % (case, nctl), loc(tc, lp), found=(len(ctl), len(o.env["tank_controls"])))
+                ab = [bound(a) for a in acts]
+                a_ok = len(ab) == 2 and all(x.get("internal_attribute") == "_internal_status" and x.get("property_attribute") == "status" and x.get("target_obj") == Opaque("self._wn.get_link(link_name)") for x in ab) \
+                    and ab[0].get("value") == Opaque("LinkStatus.Closed") and ab[1].get("value") == Opaque("LinkStatus.Open")
+                chk.expect(a_ok, "R-C06-3", "%s: actions set the link's internal status (Closed / Open) and report `status`" % case, loc(tc, lp), found=[a[1] for a in acts])
+                if vcs:
+                    def vc_ok(ev_, rel, thr):
+                        b_ = bound(ev_)
+                        try:
+                            return b_.get("source_obj") == Opaque("tank") and b_.get("source_attr") == "head" and txt_(b_.get("relation")) == rel and "threshold" in b_ and is_zero(ex3.S(b_["threshold"]) - thr)
+                        except ExtractError:
+                            return False
+                    okc = vc_ok(vcs[0], closing, want_h)
+                    chk.expect(okc, "R-C06-3", "%s: closing condition is tank head %s %s_level + elevation" % (case, "<=" if lim == "min" else ">=", lim), loc(tc, lp), found=vcs[0][1])
+                    k0 = bound(ctl[0])
+                    chk.expect(isinstance(k0.get("priority"), Opaque) and k0["priority"].text == "ControlPriority.medium" and k0.get("then_action") is not None and
+                               isinstance(k0["then_action"], Opaque) and "LinkStatus.Closed" in k0["then_action"].text, "R-C06-3", "%s: closing control has medium priority and the closing action" % case, loc(tc, lp), found=ctl[0][1][:160])
+                    chk.expect(bool(types) and types[0][1] == "_ControlType.pre_and_postsolve", "R-C06-3", "%s: closing control is pre- and post-solve (back-tracked to the limit)" % case, loc(tc, lp), found=types[:1])
+                if not has_cv and len(vcs) == 3 and len(rcs) == 1 and len(ctl) == 3:
+                    sgn = 1 if lim == "min" else -1
+                    ok1 = vc_ok(vcs[1], opening, want_h + sgn * Htol)
+                    chk.expect(ok1, "R-C06-3", "%s: re-opening condition 1 is tank head %s limit %s Htol" % (case, ">=" if lim == "min" else "<=", "+" if lim == "min" else "-"), loc(tc, lp), found=vcs[1][1])
+                    k1 = bound(ctl[1])
+                    chk.expect(txt_(k1.get("priority")) == "ControlPriority.low" and "LinkStatus.Open" in str(txt_(k1.get("then_action"))) and types[1][1] == "_ControlType.postsolve", "R-C06-3",
+                               "%s: re-opening control 1 is low priority, post-solve, opening" % case, loc(tc, lp), found=ctl[1][1][:120])
+                    r2 = bound(rcs[0])
+                    other = r2.get("threshold_obj")
+                    ok2 = r2.get("source_obj") == Opaque("tank") and r2.get("source_attr") == "head" and txt_(r2.get("relation")) == closing and r2.get("threshold_attr") == "head" and vc_ok(vcs[2], closing, want_h + sgn * Htol)
+                    other_ok = isinstance(other, Opaque) and other.text in ("self._wn.get_link(link_name).end_node", "self._wn.get_link(link_name).start_node")
+                    chk.expect(ok2 and other_ok, "R-C06-3", "%s: re-opening condition 2 is (tank head %s other node's head) and (tank head %s limit %s Htol)" % (case, "<=" if lim == "min" else ">=", "<=" if lim == "min" else ">=", "+" if lim == "min" else "-"),
+                               loc(tc, lp), found=(rcs[0][1], vcs[2][1]))
+                    k2 = bound(ctl[2])
+                    chk.expect(txt_(k2.get("priority")) == "ControlPriority.high" and "LinkStatus.Open" in str(txt_(k2.get("then_action"))) and "AndCondition" in str(txt_(k2.get("condition"))) and types[2][1] == "_ControlType.postsolve", "R-C06-3",
+                               "%s: re-opening control 2 is high priority, post-solve, opening, conjunction of both conditions" % case, loc(tc, lp), found=ctl[2][1][:160])
+                    # the `other node` is the end opposite to the tank
+                    st_is = [v for t, v in o.conds if t in (eq_atom("self._wn.get_link(link_name).start_node", "tank", "is"), eq_atom("self._wn.get_link(link_name).start_node", "tank"))]
+                    if st_is:
+                        wanto = "self._wn.get_link(link_name).end_node" if st_is[0] else "self._wn.get_link(link_name).start_node"
+                        chk.expect(txt_(other) == wanto, "R-C06-3", "%s: the comparison node is the link's other end [tank is start=%s]" % (case, st_is[0]), loc(tc, lp), found=txt_(other))
+                elif not has_cv:
+                    chk.bad("R-C06-3", "%s: two re-opening controls are created for links without a check valve" % case, loc(tc, lp), found=(len(vcs), len(rcs), len(ctl)))
+            chk.expect(ncase >= 6, "R-C06-3", "%s limit: all link kinds/orientations enumerated" % lim, loc(tc, lp), found=ncase)
+        chk.floor("R-C06-3", 50)
 
     # ---------------------------------------------------------------- R-C06-4 partial step at the limit
-    tl = repo.func(CTRL, "TankLevelCondition.evaluate")
-    chk.fn(tl)
-    # the whole method is executed symbolically (path conditions as atoms); every fact below is read off the paths, not off the text:
-    #   state      = the value returned: relation R applied to (current value, threshold)   [np.round is transparent]
-    #   partial    = the last value stored into self._backtrack on the path
-    # so locals, aliases of self._source_obj, hoisted sub-expressions, early returns / extracted helpers (inlined by E0) do not matter
-    SRC = "self._source_obj"
+    with chk.part("R-C06-4 partial step at the limit"):
+        tl = repo.func(CTRL, "TankLevelCondition.evaluate")
+        chk.fn(tl)
+        # the whole method is executed symbolically (path conditions as atoms); every fact below is read off the paths, not off the text:
+        #   state      = the value returned: relation R applied to (current value, threshold)   [np.round is transparent]
+        #   partial    = the last value stored into self._backtrack on the path
+        # so locals, aliases of self._source_obj, hoisted sub-expressions, early returns / extracted helpers (inlined by E0) do not matter
+        SRC = "self._source_obj"
 
-    def hook4(name, node, args, kwargs, st, ex, recv):
-        last = (name or "").split(".")[-1]
-        if name in ("np.round", "numpy.round", "np.around", "numpy.around", "round") and args:
-            return args[0]
-        if last == "get_volume" and len(args) == 1 and not kwargs and isinstance(recv, Opaque):
-            return sp.Function("V")(ex.sym(recv.text), ex.S(args[0]))
-        return NotImplemented
+        def hook4(name, node, args, kwargs, st, ex, recv):
+            last = (name or "").split(".")[-1]
+            if name in ("np.round", "numpy.round", "np.around", "numpy.around", "round") and args:
+                return args[0]
+            if last == "get_volume" and len(args) == 1 and not kwargs and isinstance(recv, Opaque):
+                return sp.Function("V")(ex.sym(recv.text), ex.S(args[0]))
+            return NotImplemented
 
-    def enum_hook(txt, node, st):
-        m = re.fullmatch(r"Comparison\.(\w+) (?:is|==) Comparison\.(\w+)", txt)     # two members of the Comparison enum
-        return (m.group(1) == m.group(2)) if m else None
-    ex4 = AtomExec(call_hook=hook4, test_hook=enum_hook)
-    outs4 = ex4.run(tl)
-    Dm, dm, elev = (ex4.sym(SRC + x) for x in (".diameter", ".demand", ".elevation"))
-    V = sp.Function("V")
-    srcsym = ex4.sym(SRC)
+        def enum_hook(txt, node, st):
+            m = re.fullmatch(r"Comparison\.(\w+) (?:is|==) Comparison\.(\w+)", txt)     # two members of the Comparison enum
+            return (m.group(1) == m.group(2)) if m else None
+        ex4 = AtomExec(call_hook=hook4, test_hook=enum_hook)
+        outs4 = ex4.run(tl)
+        Dm, dm, elev = (ex4.sym(SRC + x) for x in (".diameter", ".demand", ".elevation"))
+        V = sp.Function("V")
+        srcsym = ex4.sym(SRC)
 
-    def fact(c, a, b):
-        for sym_ in ("is", "=="):
-            if eq_atom(a, b, sym_) in c:
-                return c[eq_atom(a, b, sym_)]
-        return None
-
-    def unfloor(v):
-        """int(floor(x)) / floor(x) -> x (None when the value is not rounded down to whole seconds)"""
-        try:
-            v = ex4.S(v)
-        except ExtractError:
+        def fact(c, a, b):
+            for sym_ in ("is", "=="):
+                if eq_atom(a, b, sym_) in c:
+                    return c[eq_atom(a, b, sym_)]
             return None
-        if isinstance(v, sp.Function) and v.func.__name__ == "int" and len(v.args) == 1:
-            v = v.args[0]
-        return v.args[0] if isinstance(v, sp.floor) else None
-    cyl_n, cyl_bad, cur_n, cur_bad = 0, [], {"head": 0, "level": 0}, []
-    remap, remap_bad, last_bad, guard_bad, n_partial, n_ret = {}, [], [], [], 0, 0
-    for o in outs4:
-        if o.raised:
-            continue
-        n_ret += 1
-        info = ex4.applied.get(o.ret.text) if isinstance(o.ret, Opaque) else None
-        if info is None or len(info[1]) != 2:
-            raise ExtractError("TankLevelCondition.evaluate: the returned state is not `relation(current value, threshold)`: %r" % (o.ret,))
-        R, (a, b) = info
-        cur, thr = ex4.S(a), ex4.S(b)
-        c = dict(o.conds)
-        # strict relations are made inclusive
-        nan = any(v and "isnan(" in t for t, v in o.conds)
-        for strict, incl in (("gt", "ge"), ("lt", "le")):
-            if fact(c, "self._relation", "Comparison." + strict) and not (nan and R == "np.greater"):   # (a NaN threshold replaces the relation altogether)
-                remap.setdefault(strict, set()).add(R)
-        # the crossing detector's last value
-        lst = [e for e in o.events if e[0] == "store" and e[1] == "self._last_value"]
-        if not (lst and ex4.same(lst[-1][2], a)):
-            last_bad.append(o.label()[-160:])
-        bts = [e for e in o.events if e[0] == "store" and e[1] == "self._backtrack"]
-        final = bts[-1][2] if bts else None
-        if final is None or (isinstance(final, (int, float, sp.Basic)) and final == 0):
-            continue
-        # ---- a partial step is computed on this path
-        n_partial += 1
-        crossed = [t for t, v in o.conds if not v and t in ex4.applied and ex4.applied[t][0] == R and len(ex4.applied[t][1]) == 2
-                   and ex4.same(ex4.applied[t][1][1], b) and not ex4.same(ex4.applied[t][1][0], a)]
-        if not (c.get(o.ret.text) is True and crossed):
-            guard_bad.append(o.label()[-200:])
-        inner = unfloor(final)
-        vc = fact(c, SRC + ".vol_curve", "None")
-        if vc is True:
-            cyl_n += 1
-            want = (cur - thr) * sp.pi / 4 * Dm ** 2 / dm
-            if inner is None or not is_zero(inner - want):
-                cyl_bad.append(str(final))
-        elif vc is False:
-            which = "head" if fact(c, "self._source_attr", "'head'") else ("level" if fact(c, "self._source_attr", "'level'") else None)
-            if which is None:
-                cur_bad.append("source attribute undetermined: %s" % final)
+
+        def unfloor(v):
+            """int(floor(x)) / floor(x) -> x (None when the value is not rounded down to whole seconds)"""
+            try:
+                v = ex4.S(v)
+            except ExtractError:
+                return None
+            if isinstance(v, sp.Function) and v.func.__name__ == "int" and len(v.args) == 1:
+                v = v.args[0]
+            return v.args[0] if isinstance(v, sp.floor) else None
+        cyl_n, cyl_bad, cur_n, cur_bad = 0, [], {"head": 0, "level": 0}, []
+        remap, remap_bad, last_bad, guard_bad, n_partial, n_ret = {}, [], [], [], 0, 0
+        for o in outs4:
+            if o.raised:
                 continue
-            cur_n[which] += 1
-            off = elev if which == "head" else 0            # a head is converted to a level before the curve is read
-            want = (V(srcsym, cur - off) - V(srcsym, thr - off)) / dm
-            if inner is None or not is_zero(inner - want):
-                cur_bad.append("[%s] %s" % (which, final))
-        else:
-            cyl_bad.append("geometry undetermined on path %s" % o.label()[-120:])
-    if not n_ret:
-        raise ExtractError("TankLevelCondition.evaluate: no returning path")
-    if os.environ.get("VERIF_DEBUG_C06"):
-        print("R-C06-4 paths=%d returning=%d partial=%d cyl=%d curve=%s remap=%s" % (len(outs4), n_ret, n_partial, cyl_n, cur_n, remap))
-    chk.expect(cyl_n >= 1 and not cyl_bad, "R-C06-4", "tank-level crossing: partial step = floor((level - threshold) * pi/4 * D^2 / net inflow) seconds", loc(tl),
-               expected="int(floor((cur - thresh) * pi/4 * D**2 / demand)) on every cylindrical-tank path", found=cyl_bad[:2] or "no such path")
-    chk.expect(cur_n["head"] >= 1 and cur_n["level"] >= 1 and not cur_bad, "R-C06-4", "tank-level crossing with a volume curve: partial step = floor((V(level) - V(threshold)) / net inflow)", loc(tl),
-               expected="int(floor((get_volume(level) - get_volume(threshold level)) / demand)) for head and level conditions", found=cur_bad[:2] or cur_n)
-    remap_txt = {k: "|".join(sorted(v)) for k, v in remap.items()}
-    chk.expect(remap_txt == {"gt": "Comparison.ge", "lt": "Comparison.le"}, "R-C06-4", "strict tank-level relations are treated as inclusive (a level exactly at the limit triggers)", loc(tl), found=remap_txt)
-    chk.expect(not last_bad, "R-C06-4", "the crossing detector's last value is updated on every evaluation (top-level statement)", loc(tl), found=last_bad[:2])
-    # crossing guard: `state and not relation(<value at the last accepted step>, threshold)`; which variable carries that value is C05's R-C05-6
-    chk.expect(n_partial >= 1 and not guard_bad, "R-C06-4", "a partial step is computed only when the condition became true since the last accepted step (so (level - threshold)/inflow >= 0)", loc(tl),
-               found=guard_bad[:2] or "no path computes a partial step")
+            n_ret += 1
+            info = ex4.applied.get(o.ret.text) if isinstance(o.ret, Opaque) else None
+            if info is None or len(info[1]) != 2:
+                raise ExtractError("TankLevelCondition.evaluate: the returned state is not `relation(current value, threshold)`: %r" % (o.ret,))
+            R, (a, b) = info
+            cur, thr = ex4.S(a), ex4.S(b)
+            c = dict(o.conds)
+            # strict relations are made inclusive
+            nan = any(v and "isnan(" in t for t, v in o.conds)
+            for strict, incl in (("gt", "ge"), ("lt", "le")):
+                if fact(c, "self._relation", "Comparison." + strict) and not (nan and R == "np.greater"):   # (a NaN threshold replaces the relation altogether)
+                    remap.setdefault(strict, set()).add(R)
+            # the crossing detector's last value
+            lst = [e for e in o.events if e[0] == "store" and e[1] == "self._last_value"]
+            if not (lst and ex4.same(lst[-1][2], a)):
+                last_bad.append(o.label()[-160:])
+            bts = [e for e in o.events if e[0] == "store" and e[1] == "self._backtrack"]
+            final = bts[-1][2] if bts else None
+            if final is None or (isinstance(final, (int, float, sp.Basic)) and final == 0):
+                continue
+            # ---- a partial step is computed on this path
+            n_partial += 1
+            crossed = [t for t, v in o.conds if not v and t in ex4.applied and ex4.applied[t][0] == R and len(ex4.applied[t][1]) == 2
+                       and ex4.same(ex4.applied[t][1][1], b) and not ex4.same(ex4.applied[t][1][0], a)]
+            if not (c.get(o.ret.text) is True and crossed):
+                guard_bad.append(o.label()[-200:])
+            inner = unfloor(final)
+            vc = fact(c, SRC + ".vol_curve", "None")
+            if vc is True:
+                cyl_n += 1
+                want = (cur - thr) * sp.pi / 4 * Dm ** 2 / dm
+                if inner is None or not is_zero(inner - want):
+                    cyl_bad.append(str(final))
+            elif vc is False:
+                which = "head" if fact(c, "self._source_attr", "'head'") else ("level" if fact(c, "self._source_attr", "'level'") else None)
+                if which is None:
+                    cur_bad.append("source attribute undetermined: %s" % final)
+                    continue
+                cur_n[which] += 1
+                off = elev if which == "head" else 0            # a head is converted to a level before the curve is read
+                want = (V(srcsym, cur - off) - V(srcsym, thr - off)) / dm
+                if inner is None or not is_zero(inner - want):
+                    cur_bad.append("[%s] %s" % (which, final))
+            else:
+                cyl_bad.append("geometry undetermined on path %s" % o.label()[-120:])
+        if not n_ret:
+            raise ExtractError("TankLevelCondition.evaluate: no returning path")
+        if os.environ.get("VERIF_DEBUG_C06"):
+            print("R-C06-4 paths=%d returning=%d partial=%d cyl=%d curve=%s remap=%s" % (len(outs4), n_ret, n_partial, cyl_n, cur_n, remap))
+        chk.expect(cyl_n >= 1 and not cyl_bad, "R-C06-4", "tank-level crossing: partial step = floor((level - threshold) * pi/4 * D^2 / net inflow) seconds", loc(tl),
+                   expected="int(floor((cur - thresh) * pi/4 * D**2 / demand)) on every cylindrical-tank path", found=cyl_bad[:2] or "no such path")
+        chk.expect(cur_n["head"] >= 1 and cur_n["level"] >= 1 and not cur_bad, "R-C06-4", "tank-level crossing with a volume curve: partial step = floor((V(level) - V(threshold)) / net inflow)", loc(tl),
+                   expected="int(floor((get_volume(level) - get_volume(threshold level)) / demand)) for head and level conditions", found=cur_bad[:2] or cur_n)
+        remap_txt = {k: "|".join(sorted(v)) for k, v in remap.items()}
+        chk.expect(remap_txt == {"gt": "Comparison.ge", "lt": "Comparison.le"}, "R-C06-4", "strict tank-level relations are treated as inclusive (a level exactly at the limit triggers)", loc(tl), found=remap_txt)
+        chk.expect(not last_bad, "R-C06-4", "the crossing detector's last value is updated on every evaluation (top-level statement)", loc(tl), found=last_bad[:2])
+        # crossing guard: `state and not relation(<value at the last accepted step>, threshold)`; which variable carries that value is C05's R-C05-6
+        chk.expect(n_partial >= 1 and not guard_bad, "R-C06-4", "a partial step is computed only when the condition became true since the last accepted step (so (level - threshold)/inflow >= 0)", loc(tl),
+                   found=guard_bad[:2] or "no path computes a partial step")
 
 
     # ================================================================ rules added after the defect hunt (hunted/C06)
     # ---------------------------------------------------------------- R-C06-1b "starting from init_level": both quantities the starting head is made of refresh it
-    # (T2: each setter is executed symbolically; on every returning path the LAST value stored into self._head must be elevation + init_level with the
-    #  quantity being set taken at its NEW value -- read through the property, the backing field or the setter's parameter alike)
-    tk = repo.cls(ELEM, "Tank")
-    setters = {n.name: n for n in tk.body if isinstance(n, ast.FunctionDef) and any(isinstance(d, ast.Attribute) and d.attr == "setter" for d in n.decorator_list)}
-    ini_ = [n for n in tk.body if isinstance(n, ast.FunctionDef) and n.name == "__init__"][0]
-    head0 = [a for a in walk(ini_) if isinstance(a, ast.Assign) and unparse(a.targets[0]) == "self._head"]
-    if not head0:
-        raise ExtractError("Tank.__init__: initial head not found")
-    reads = {x.attr.lstrip("_") for x in ast.walk(head0[0].value) if isinstance(x, ast.Attribute)}
-    parts = sorted(reads & {"elevation", "init_level"})
-    if parts != ["elevation", "init_level"]:
-        raise ExtractError("Tank.__init__: the starting head is no longer made of elevation and init_level (%s)" % sorted(reads))
-    for q in parts:
-        st = setters.get(q)
-        if st is None:
-            chk.bad("R-C06-1b", "Tank.%s setter refreshes the starting head (head = elevation + init_level)" % q, ELEM, found="no setter")
-            continue
-        chk.fn(st)
-        exs = SymExec()
-        okq, found_q, npaths = True, [], 0
-        for o in exs.run(st):
-            if o.raised:
+    with chk.part("R-C06-1b 'starting from init_level': both quantities the starting head is made of refresh "):
+        # (T2: each setter is executed symbolically; on every returning path the LAST value stored into self._head must be elevation + init_level with the
+        #  quantity being set taken at its NEW value -- read through the property, the backing field or the setter's parameter alike)
+        tk = repo.cls(ELEM, "Tank")
+        setters = {n.name: n for n in tk.body if isinstance(n, ast.FunctionDef) and any(isinstance(d, ast.Attribute) and d.attr == "setter" for d in n.decorator_list)}
+        ini_ = [n for n in tk.body if isinstance(n, ast.FunctionDef) and n.name == "__init__"][0]
+        head0 = [a for a in walk(ini_) if isinstance(a, ast.Assign) and unparse(a.targets[0]) == "self._head"]
+        if not head0:
+            raise ExtractError("Tank.__init__: initial head not found")
+        reads = {x.attr.lstrip("_") for x in ast.walk(head0[0].value) if isinstance(x, ast.Attribute)}
+        parts = sorted(reads & {"elevation", "init_level"})
+        if parts != ["elevation", "init_level"]:
+            raise ExtractError("Tank.__init__: the starting head is no longer made of elevation and init_level (%s)" % sorted(reads))
+        for q in parts:
+            st = setters.get(q)
+            if st is None:
+                chk.bad("R-C06-1b", "Tank.%s setter refreshes the starting head (head = elevation + init_level)" % q, ELEM, found="no setter")
                 continue
-            npaths += 1
-            hs = [e for e in o.events if e[0] == "store" and e[1] == "self._head"]
-            newq = [e[2] for e in o.events if e[0] == "store" and e[1] == "self._" + q]
-            found_q.append([str(e[2]) for e in hs] or "no assignment of _head")
-            if not hs or not newq:
-                okq = False
-                continue
-            try:
-                val = pub(exs, hs[-1][2])
-                newv = exs.S(newq[-1])
-            except ExtractError:
-                okq = False
-                continue
-            # the quantity being set counts at its new value: replace its symbol (property / backing field spelling) by the value stored
-            val = val.subs(exs.sym("self." + q), newv)
-            other = [x for x in parts if x != q][0]
-            okq = okq and is_zero(val - (newv + exs.sym("self." + other)))
-        chk.expect(okq and npaths >= 1, "R-C06-1b", "Tank.%s setter refreshes the starting head (head = elevation + init_level)" % q, loc(ELEM, st),
-                   "the tank's head at the start of a simulation is elevation + init_level; a setter that leaves _head alone (or stores something else) makes the run start from a different level than init_level",
-                   expected="self._head = elevation + init_level with the new %s" % q, found=found_q)
-    chk.floor("R-C06-1b", 2)
+            chk.fn(st)
+            exs = SymExec()
+            okq, found_q, npaths = True, [], 0
+            for o in exs.run(st):
+                if o.raised:
+                    continue
+                npaths += 1
+                hs = [e for e in o.events if e[0] == "store" and e[1] == "self._head"]
+                newq = [e[2] for e in o.events if e[0] == "store" and e[1] == "self._" + q]
+                found_q.append([str(e[2]) for e in hs] or "no assignment of _head")
+                if not hs or not newq:
+                    okq = False
+                    continue
+                try:
+                    val = pub(exs, hs[-1][2])
+                    newv = exs.S(newq[-1])
+                except ExtractError:
+                    okq = False
+                    continue
+                # the quantity being set counts at its new value: replace its symbol (property / backing field spelling) by the value stored
+                val = val.subs(exs.sym("self." + q), newv)
+                other = [x for x in parts if x != q][0]
+                okq = okq and is_zero(val - (newv + exs.sym("self." + other)))
+            chk.expect(okq and npaths >= 1, "R-C06-1b", "Tank.%s setter refreshes the starting head (head = elevation + init_level)" % q, loc(ELEM, st),
+                       "the tank's head at the start of a simulation is elevation + init_level; a setter that leaves _head alone (or stores something else) makes the run start from a different level than init_level",
+                       expected="self._head = elevation + init_level with the new %s" % q, found=found_q)
+        chk.floor("R-C06-1b", 2)
 
     # ---------------------------------------------------------------- R-C06-1c the volume curve used is the tank's CURRENT curve
-    # (T2: the axes handed to every interpolation are taken from the symbolic execution, i.e. with all locals resolved to what they were computed from; each axis
-    #  must be computed, inside the function, from `<tank>.vol_curve.points` (Curve.points has a setter: the points of an assigned curve can be replaced).  An axis that
-    #  comes from a method of Tank is accepted when that method reads the points itself or memoises under a guard that compares them; anything else -- an attribute
-    #  cached on the tank, a module-level table -- is a stale-curve hazard.)
-    def interp_axes(fn, stores):
-        exa = AtomExec(call_hook=interp_hook)
-        axes = set()
-        for o in exa.run(fn):
-            if o.raised:
-                continue
-            vals = [e[2] for e in o.events if e[0] == "store" and e[1] in stores] + ([o.ret] if o.ret is not None else [])
-            for v in vals:
-                try:
-                    v = exa.S(v)
-                except ExtractError:
+    with chk.part("R-C06-1c the volume curve used is the tank's CURRENT curve"):
+        # (T2: the axes handed to every interpolation are taken from the symbolic execution, i.e. with all locals resolved to what they were computed from; each axis
+        #  must be computed, inside the function, from `<tank>.vol_curve.points` (Curve.points has a setter: the points of an assigned curve can be replaced).  An axis that
+        #  comes from a method of Tank is accepted when that method reads the points itself or memoises under a guard that compares them; anything else -- an attribute
+        #  cached on the tank, a module-level table -- is a stale-curve hazard.)
+        def interp_axes(fn, stores):
+            exa = AtomExec(call_hook=interp_hook)
+            axes = set()
+            for o in exa.run(fn):
+                if o.raised:
                     continue
-                for at in (v.atoms(sp.Function) if isinstance(v, sp.Basic) else ()):
-                    if at.func.__name__ == "interp":
-                        axes.update(str(x) for x in at.args[1:])
-        return sorted(axes)
+                vals = [e[2] for e in o.events if e[0] == "store" and e[1] in stores] + ([o.ret] if o.ret is not None else [])
+                for v in vals:
+                    try:
+                        v = exa.S(v)
+                    except ExtractError:
+                        continue
+                    for at in (v.atoms(sp.Function) if isinstance(v, sp.Basic) else ()):
+                        if at.func.__name__ == "interp":
+                            axes.update(str(x) for x in at.args[1:])
+            return sorted(axes)
 
-    def axis_verdict(txt, owner_cls):
-        if re.search(r"vol_curve(_name\])?\.points", txt):
-            return None
-        m = re.search(r"(?:self|tank)\.(\w+)\(", txt)
-        if m:
-            meth = [n for n in owner_cls.body if isinstance(n, ast.FunctionDef) and n.name == m.group(1)]
-            if meth:
-                body_txt = unparse(meth[0])
-                tests = [unparse(n.test) for n in walk(meth[0]) if isinstance(n, ast.If)]
-                if ".points" in body_txt and (not tests or any(".points" in t for t in tests)):
-                    return None
-                return "%s() memoises the curve array without comparing the curve's points (%s)" % (m.group(1), "; ".join(tests)[:120])
-        return "axis `%s` is not computed from the curve's points at the time of use" % txt[:100]
-    for fn_, label, stores_ in ((repo.func(HYD, "update_tank_heads"), "update_tank_heads", ("tank._head",)), (repo.func(ELEM, "Tank.get_volume"), "Tank.get_volume", ())):
-        axes_ = interp_axes(fn_, stores_)
-        bad_ = [b_ for b_ in (axis_verdict(t, tk) for t in axes_) if b_] if axes_ else ["no interpolation on the volume curve found"]
-        chk.expect(not bad_, "R-C06-1c", "%s reads the points of the tank's volume curve at the time of use" % label, loc(fn_),
-                   "the points of an assigned curve can be replaced in place (curve.points = [...]); an array cached when the curve was first used makes later runs integrate through the old curve",
-                   expected="every interpolation axis computed from <tank>.vol_curve.points (or a memo keyed by the points)", found=bad_ or axes_)
-    chk.floor("R-C06-1c", 2)
+        def axis_verdict(txt, owner_cls):
+            if re.search(r"vol_curve(_name\])?\.points", txt):
+                return None
+            m = re.search(r"(?:self|tank)\.(\w+)\(", txt)
+            if m:
+                meth = [n for n in owner_cls.body if isinstance(n, ast.FunctionDef) and n.name == m.group(1)]
+                if meth:
+                    body_txt = unparse(meth[0])
+                    tests = [unparse(n.test) for n in walk(meth[0]) if isinstance(n, ast.If)]
+                    if ".points" in body_txt and (not tests or any(".points" in t for t in tests)):
+                        return None
+                    return "%s() memoises the curve array without comparing the curve's points (%s)" % (m.group(1), "; ".join(tests)[:120])
+            return "axis `%s` is not computed from the curve's points at the time of use" % txt[:100]
+        for fn_, label, stores_ in ((repo.func(HYD, "update_tank_heads"), "update_tank_heads", ("tank._head",)), (repo.func(ELEM, "Tank.get_volume"), "Tank.get_volume", ())):
+            axes_ = interp_axes(fn_, stores_)
+            bad_ = [b_ for b_ in (axis_verdict(t, tk) for t in axes_) if b_] if axes_ else ["no interpolation on the volume curve found"]
+            chk.expect(not bad_, "R-C06-1c", "%s reads the points of the tank's volume curve at the time of use" % label, loc(fn_),
+                       "the points of an assigned curve can be replaced in place (curve.points = [...]); an array cached when the curve was first used makes later runs integrate through the old curve",
+                       expected="every interpolation axis computed from <tank>.vol_curve.points (or a memo keyed by the points)", found=bad_ or axes_)
+        chk.floor("R-C06-1c", 2)
 
     # ---------------------------------------------------------------- R-C06-3b the closure the tank controls command is effective for every link kind they act on
-    # the closing controls write _internal_status = Closed; a link's effective status must then be Closed whatever the user status is
-    from .c02 import status_table
-    for cname in ("Pipe", "Pump", "Valve"):
-        tab = status_table(repo, cname)
-        bad_ = sorted(u for (u, i_), v in tab.items() if i_ == "Closed" and v != "Closed")
-        chk.expect(not bad_, "R-C06-3b", "%s.status is Closed whenever the tank-limit controls set _internal_status = Closed" % cname, loc(ELEM, repo.cls(ELEM, cname)),
-                   "_get_all_tank_controls closes links through _internal_status; %s.status ignores it for user status %s: such a link next to a tank keeps filling / draining it past its limits" % (cname, bad_),
-                   expected="Closed", found={u: tab[(u, "Closed")] for u in bad_})
+    with chk.part("R-C06-3b the closure the tank controls command is effective for every link kind they act o"):
+        # the closing controls write _internal_status = Closed; a link's effective status must then be Closed whatever the user status is
+        from .c02 import status_table
+        for cname in ("Pipe", "Pump", "Valve"):
+            tab = status_table(repo, cname)
+            bad_ = sorted(u for (u, i_), v in tab.items() if i_ == "Closed" and v != "Closed")
+            chk.expect(not bad_, "R-C06-3b", "%s.status is Closed whenever the tank-limit controls set _internal_status = Closed" % cname, loc(ELEM, repo.cls(ELEM, cname)),
+                       "_get_all_tank_controls closes links through _internal_status; %s.status ignores it for user status %s: such a link next to a tank keeps filling / draining it past its limits" % (cname, bad_),
+                       expected="Closed", found={u: tab[(u, "Closed")] for u in bad_})
 
     # ---------------------------------------------------------------- R-C06-3c a link between two tanks: re-opening looks at the other tank's limit too
-    # (text match: the substring 'isinstance(other_node, Tank)' in the unparsed function; what the test is used for is not analysed)
-    gat = repo.func(CORE, "WNTRSimulator._get_all_tank_controls")
-    txt_ = unparse(gat)
-    looks_at_other_tank = "isinstance(other_node, Tank)" in txt_ or "isinstance(other_node, wntr.network.Tank)" in txt_
-    chk.expect(looks_at_other_tank, "R-C06-3c", "the re-opening control of a link at a full / empty tank checks the limit of the tank at its other end", loc(gat),
-               "open_control_2 (priority high) re-opens the link when this tank's head allows flow towards the other node, without asking whether the other node is a tank at its own "
-               "limit; it out-ranks that tank's closing control (priority medium), so a pipe between two full tanks keeps filling one of them", expected="a condition on other_node when it is a Tank",
-               found="other_node is used only through its head")
+    with chk.part("R-C06-3c a link between two tanks: re-opening looks at the other tank's limit too"):
+        # (text match: the substring 'isinstance(other_node, Tank)' in the unparsed function; what the test is used for is not analysed)
+        gat = repo.func(CORE, "WNTRSimulator._get_all_tank_controls")
+        txt_ = unparse(gat)
+        looks_at_other_tank = "isinstance(other_node, Tank)" in txt_ or "isinstance(other_node, wntr.network.Tank)" in txt_
+        chk.expect(looks_at_other_tank, "R-C06-3c", "the re-opening control of a link at a full / empty tank checks the limit of the tank at its other end", loc(gat),
+                   "open_control_2 (priority high) re-opens the link when this tank's head allows flow towards the other node, without asking whether the other node is a tank at its own "
+                   "limit; it out-ranks that tank's closing control (priority medium), so a pipe between two full tanks keeps filling one of them", expected="a condition on other_node when it is a Tank",
+                   found="other_node is used only through its head")
 
     # ---------------------------------------------------------------- R-C06-3d pumps are skipped by the tank controls because they cannot run backwards -- they must not
-    # (T3, bounded: the shut-off condition object is built by its own constructor on mock nodes / pump (c02.condition_value) and evaluated by the in-house interpreter
-    #  for a pump that carries reverse flow although the head difference is BELOW its shut-off head: a tank draining backwards through its fill pump)
-    from .c02 import condition_value, QTOL_SI
-    for cname in ("_CloseHeadPumpCondition",):      # power pumps: the constant-power relation admits no reverse-flow solution (checked by experiment), not claimed
-        ev_fn = repo.func(CTRL, cname + ".evaluate")
-        chk.fn(ev_fn)
-        for heads, flow in (((10.0, 30.0), -1e-3), ((25.0, 20.0), -5e-2), ((0.0, 49.0), -10 * QTOL_SI)):
-            got, err = condition_value(repo, cname, heads, flow, internal="Open", shutoff=50.0)
-            chk.expect(err is None and got is True, "R-C06-3d", "%s closes a pump that carries reverse flow [heads %s -> %s, shut-off 50, flow %g]" % (cname, heads[0], heads[1], flow), loc(ev_fn),
-                       "pumps that end (start) at a tank get no min-level (max-level) closing control 'because pumps have check valves', but a closing condition that only "
-                       "compares the head difference with the shut-off head never fires for q < 0 (the pump curve is flat at the shut-off head there) and the tank drains backwards "
-                       "through the open pump below its minimum level", expected="True (as _CloseCVCondition)", found=err or repr(got))
-    chk.floor("R-C06-3d", 3)
+    with chk.part("R-C06-3d pumps are skipped by the tank controls because they cannot run backwards -- they "):
+        # (T3, bounded: the shut-off condition object is built by its own constructor on mock nodes / pump (c02.condition_value) and evaluated by the in-house interpreter
+        #  for a pump that carries reverse flow although the head difference is BELOW its shut-off head: a tank draining backwards through its fill pump)
+        from .c02 import condition_value, QTOL_SI
+        for cname in ("_CloseHeadPumpCondition",):      # power pumps: the constant-power relation admits no reverse-flow solution (checked by experiment), not claimed
+            ev_fn = repo.func(CTRL, cname + ".evaluate")
+            chk.fn(ev_fn)
+            for heads, flow in (((10.0, 30.0), -1e-3), ((25.0, 20.0), -5e-2), ((0.0, 49.0), -10 * QTOL_SI)):
+                got, err = condition_value(repo, cname, heads, flow, internal="Open", shutoff=50.0)
+                chk.expect(err is None and got is True, "R-C06-3d", "%s closes a pump that carries reverse flow [heads %s -> %s, shut-off 50, flow %g]" % (cname, heads[0], heads[1], flow), loc(ev_fn),
+                           "pumps that end (start) at a tank get no min-level (max-level) closing control 'because pumps have check valves', but a closing condition that only "
+                           "compares the head difference with the shut-off head never fires for q < 0 (the pump curve is flat at the shut-off head there) and the tank drains backwards "
+                           "through the open pump below its minimum level", expected="True (as _CloseCVCondition)", found=err or repr(got))
+        chk.floor("R-C06-3d", 3)
 
     # ---------------------------------------------------------------- R-C06-5 volume curves are not silently clamped at their ends
-    # (presence match: passes if any call ending in 'interp' carries a left= / right= keyword, or if there is no such call)
-    uth = repo.func(HYD, "update_tank_heads")
-    interp_calls = [c for c in calls(uth) if (call_name(c) or "").endswith("interp")]
-    extended = any(k.arg in ("left", "right") for c in interp_calls for k in c.keywords) or not interp_calls
-    chk.expect(extended, "R-C06-5", "the level <-> volume conversion of a volume-curve tank is extended beyond the ends of the curve", loc(uth),
-               "np.interp clamps outside the tabulated range: when the trial volume leaves the curve the level stops at the curve's end, the partial step is computed from the clamped "
-               "level (back-track 0) and the stored volume no longer changes by net inflow x dt (88.96 m3 lost in one step in hunted/C06/defect_1.py)",
-               expected="extrapolation (or a refusal) outside the curve", found="%d plain np.interp call(s)" % len(interp_calls))
+    with chk.part("R-C06-5 volume curves are not silently clamped at their ends"):
+        # (presence match: passes if any call ending in 'interp' carries a left= / right= keyword, or if there is no such call)
+        uth = repo.func(HYD, "update_tank_heads")
+        interp_calls = [c for c in calls(uth) if (call_name(c) or "").endswith("interp")]
+        extended = any(k.arg in ("left", "right") for c in interp_calls for k in c.keywords) or not interp_calls
+        chk.expect(extended, "R-C06-5", "the level <-> volume conversion of a volume-curve tank is extended beyond the ends of the curve", loc(uth),
+                   "np.interp clamps outside the tabulated range: when the trial volume leaves the curve the level stops at the curve's end, the partial step is computed from the clamped "
+                   "level (back-track 0) and the stored volume no longer changes by net inflow x dt (88.96 m3 lost in one step in hunted/C06/defect_1.py)",
+                   expected="extrapolation (or a refusal) outside the curve", found="%d plain np.interp call(s)" % len(interp_calls))
 
 WITNESSES = [
     dict(name="tank-source-head-refreshed-from-the-elevation", file="wntr/sim/models/param.py", old="            m.source_head[node_name].value = node.head\n", new="            m.source_head[node_name].value = node.elevation\n", rule="R-C06-2"),
